@@ -437,8 +437,14 @@ class World:
             return None
         cols = [tuple(c) for c in sp["columns"]]
         rows = []
-        for r in range(sp["nsink"]):
-            rows.append([float(r + 1) if name == "id" else (ic + 1) * 10.0 + r + 0.5 for ic, (name, u) in enumerate(cols)])
+        # rows in no particular order of any column (each column has its own permutation of distinct values)
+        n = sp["nsink"]
+        for r in range(n):
+            row = []
+            for ic, (name, u) in enumerate(cols):
+                k = sorted(range(n), key=lambda q: H(self.p["wseed"], "sinkperm", ic, q)).index(r)
+                row.append(float(k + 1) if name == "id" else (ic + 1) * 10.0 + k + 0.5)
+            rows.append(row)
         return [c[0] for c in cols], [c[1] for c in cols], rows
 
     def _write_sink(self, fname):
